@@ -31,6 +31,36 @@ pub struct ChunkyReader<'a> {
     pub read_max: Option<usize>,
 }
 
+thread_local! {
+    static ERR_STYLE: std::cell::Cell<u8> = const { std::cell::Cell::new(0) };
+}
+
+/// How injected (non-Interrupted) failures are constructed on this thread:
+/// 0 = new(Other, text), 1 = from(Other) (no payload), 2 = from(BrokenPipe),
+/// 3 = from_raw_os_error(ENOSPC), 4 = new(UnexpectedEof, text), 5 = new(InvalidData, text).
+/// Returns a guard that restores style 0.
+pub fn set_err_style(s: u8) -> ErrStyleGuard {
+    ERR_STYLE.with(|c| c.set(s % 6));
+    ErrStyleGuard
+}
+pub struct ErrStyleGuard;
+impl Drop for ErrStyleGuard {
+    fn drop(&mut self) {
+        ERR_STYLE.with(|c| c.set(0));
+    }
+}
+
+fn injected(msg: &'static str) -> io::Error {
+    match ERR_STYLE.with(|c| c.get()) {
+        1 => io::Error::from(io::ErrorKind::Other),
+        2 => io::Error::from(io::ErrorKind::BrokenPipe),
+        3 => io::Error::from_raw_os_error(28),
+        4 => io::Error::new(io::ErrorKind::UnexpectedEof, msg),
+        5 => io::Error::new(io::ErrorKind::InvalidData, msg),
+        _ => io::Error::new(io::ErrorKind::Other, msg),
+    }
+}
+
 impl<'a> ChunkyReader<'a> {
     pub fn new(data: &'a [u8], pattern: Vec<usize>) -> Self {
         ChunkyReader {
@@ -66,8 +96,10 @@ impl<'a> ChunkyReader<'a> {
         self.calls += 1;
         if self.fail_at == Some(k) || (self.fail_sticky && self.failed) {
             self.failed = true;
-            let kind = if self.fail_interrupted { io::ErrorKind::Interrupted } else { io::ErrorKind::Other };
-            return Err(io::Error::new(kind, "injected read fault"));
+            if self.fail_interrupted {
+                return Err(io::Error::new(io::ErrorKind::Interrupted, "injected read fault"));
+            }
+            return Err(injected("injected read fault"));
         }
         if let Some((pos, count)) = self.interrupt_burst {
             if self.pos >= pos && count > 0 {
@@ -203,7 +235,7 @@ impl Write for SinkState {
         self.writes += 1;
         if self.cfg.fail_write_at == Some(k) {
             self.write_failed = true;
-            return Err(io::Error::new(io::ErrorKind::Other, "injected write fault"));
+            return Err(injected("injected write fault"));
         }
         if buf.is_empty() {
             return Ok(0);
@@ -237,7 +269,7 @@ impl Write for SinkState {
         self.flushes += 1;
         if self.cfg.fail_flush {
             self.flush_failed = true;
-            return Err(io::Error::new(io::ErrorKind::Other, "injected flush fault"));
+            return Err(injected("injected flush fault"));
         }
         self.flushed_total = self.total;
         Ok(())
